@@ -110,37 +110,61 @@ func (g *Gate) Create(ctx context.Context, r kvs.Record) (string, error) {
 }
 
 func (g *Gate) Get(ctx context.Context, key string) (kvs.Record, error) {
-	lq, _ := g.pre("Get", false)
-	if lq {
+	// not called by the locker as it stands; faultable like every other acquire/release-path call so that a change
+	// which starts to read the record meets a storage that can fail there too (seed C04-L)
+	lq, lp := g.pre("Get", g.Faults)
+	if lq || lp {
+		g.log("Get lost")
 		return kvs.Record{}, ErrInjected
+	}
+	if g.HonourCtx && ctx.Err() != nil {
+		return kvs.Record{}, ctx.Err()
 	}
 	return g.Inner.Get(ctx, key)
 }
 
 func (g *Gate) GetMany(ctx context.Context, keys ...string) ([]*kvs.Record, error) {
-	lq, _ := g.pre("GetMany", false)
-	if lq {
+	lq, lp := g.pre("GetMany", g.Faults)
+	if lq || lp {
+		g.log("GetMany lost")
 		return nil, ErrInjected
+	}
+	if g.HonourCtx && ctx.Err() != nil {
+		return nil, ctx.Err()
 	}
 	return g.Inner.GetMany(ctx, keys...)
 }
 
 func (g *Gate) Put(ctx context.Context, r kvs.Record) (kvs.Record, error) {
-	lq, _ := g.pre("Put", false)
+	lq, lp := g.pre("Put", g.Faults)
 	if lq {
+		g.log("Put lost")
 		return kvs.Record{}, ErrInjected
+	}
+	if g.HonourCtx && ctx.Err() != nil {
+		return kvs.Record{}, ctx.Err()
 	}
 	res, err := g.Inner.Put(ctx, r)
 	g.log("Put -> %v", err)
+	if lp {
+		return kvs.Record{}, ErrInjected
+	}
 	return res, err
 }
 
 func (g *Gate) PutMany(ctx context.Context, rs []kvs.Record) error {
-	lq, _ := g.pre("PutMany", false)
+	lq, lp := g.pre("PutMany", g.Faults)
 	if lq {
 		return ErrInjected
 	}
-	return g.Inner.PutMany(ctx, rs)
+	if g.HonourCtx && ctx.Err() != nil {
+		return ctx.Err()
+	}
+	err := g.Inner.PutMany(ctx, rs)
+	if lp {
+		return ErrInjected
+	}
+	return err
 }
 
 func (g *Gate) CasByVersion(ctx context.Context, r kvs.Record) (kvs.Record, error) {
@@ -406,6 +430,17 @@ func (sc *Scenario) Build(obs *Obs) func() {
 		})
 		if sc.Residue {
 			vsched.DropPseudos() // cancellations / shutdown that did not happen so far do not happen during the probes
+			if sc.Faults {
+				// after injected storage faults a record whose Delete was lost legitimately stays until its lease
+				// runs out: stop injecting, let every lease lapse, then probe only what must hold regardless -
+				// every locker can acquire again
+				for _, g := range gates {
+					if g != nil {
+						g.Faults = false
+					}
+				}
+				vsched.Sleep(3 * sc.Lease)
+			}
 			obs.Residue = residue(st, lockers, sc, obs)
 		}
 	}
@@ -485,13 +520,17 @@ func residue(st kvs.Storage, lockers []gsync.Locker, sc *Scenario, obs *Obs) str
 			faulted = true
 		}
 	}
-	_ = faulted
-	if _, err := st.Get(context.Background(), "/locks/L"); err == nil {
+	if sc.Faults {
+		faulted = true
+	}
+	if faulted {
+		// only the usability probes below
+	} else if _, err := st.Get(context.Background(), "/locks/L"); err == nil {
 		probs = append(probs, "lock record still present after every holder unlocked")
 	} else if !gerrors.Is(err, gerrors.ErrNotExist) {
 		probs = append(probs, "Get(lock key): "+err.Error())
 	}
-	if w := waitersOf(st); len(w) != 0 {
+	if w := waitersOf(st); len(w) != 0 && !faulted {
 		ks := []string{}
 		for k, n := range w {
 			ks = append(ks, fmt.Sprintf("%s:%d", k, n))
